@@ -19,6 +19,8 @@ type Clause struct {
 	Line int
 	Reveal []string // clause-level `using reveal f g`
 	Lemmas []string // clause-level `using lemmas a b`
+	Only   bool     // `using only …`: the function-level reveal/lemmas lists are not added
+	Timeout int     // `using … timeout N`: per-obligation solver timeout in seconds
 	Var    string   // snap: ghost name
 }
 
@@ -220,13 +222,22 @@ func (cs *ContractSet) ParseContractLines(lines []rawLine, defPkg string, file s
 		case "assert", "snap":
 			body := s.rest
 			var rev, lem []string
+			only, tmo := false, 0
 			if k := strings.Index(body, " using "); k >= 0 {
 				us := strings.Fields(strings.ReplaceAll(body[k+7:], ",", " "))
 				body = strings.TrimSpace(body[:k])
 				mode := ""
 				for _, u := range us {
-					if u == "reveal" || u == "lemmas" {
+					if u == "only" {
+						only = true
+						continue
+					}
+					if u == "reveal" || u == "lemmas" || u == "timeout" {
 						mode = u
+						continue
+					}
+					if mode == "timeout" {
+						fmt.Sscanf(u, "%d", &tmo)
 						continue
 					}
 					if mode == "reveal" {
@@ -249,7 +260,7 @@ func (cs *ContractSet) ParseContractLines(lines []rawLine, defPkg string, file s
 			if err != nil {
 				return fmt.Errorf("%s: %v", where, err)
 			}
-			cur.Asserts = append(cur.Asserts, &Clause{Kind: s.kw, Mode: s.mode, Expr: e, Name: s.anchor, Text: body, Line: s.line, Reveal: rev, Lemmas: lem, Var: varName})
+			cur.Asserts = append(cur.Asserts, &Clause{Kind: s.kw, Mode: s.mode, Expr: e, Name: s.anchor, Text: body, Line: s.line, Reveal: rev, Lemmas: lem, Var: varName, Only: only, Timeout: tmo})
 		case "modifies":
 			for _, part := range splitTop(s.rest) {
 				e, err := ParseCExpr(part)
